@@ -181,7 +181,7 @@ fn scomp(elem: GExpr, v: &str, src: GExpr) -> GExpr {
 
 /// a value that is *not* local, reaching the construct through several forms
 fn nonlocal_value(rng: &mut Rng, cap: &str, pre: &mut Vec<GStmt>) -> (GExpr, &'static str) {
-    match rng.below(11) {
+    match rng.below(17) {
         0 => (GExpr::scoped(GExpr::cap(cap), "zq_scoped"), "scoped_read"),
         1 => {
             pre.push(var_("zq_m", GExpr::str("ab")));
@@ -218,6 +218,30 @@ fn nonlocal_value(rng: &mut Rng, cap: &str, pre: &mut Vec<GStmt>) -> (GExpr, &'s
             pre.push(var_("zq_m", GExpr::Int(1)));
             (GExpr::call("plus", vec![GExpr::var("zq_m"), GExpr::Int(1), GExpr::Int(2)]), "call_with_mutable_argument_first")
         }
+        11 => (
+            scomp(GExpr::scoped(GExpr::var("zq_e"), "zq_scoped"), "zq_e", GExpr::List(vec![GExpr::cap(cap)])),
+            "set_comprehension_with_scoped_element",
+        ),
+        12 => {
+            pre.push(var_("zq_m", GExpr::Int(1)));
+            (scomp(GExpr::var("zq_m"), "zq_e", GExpr::List(vec![GExpr::Int(1), GExpr::Int(2)])), "set_comprehension_with_mutable_element")
+        }
+        13 => {
+            pre.push(let_("zq_l1", scomp(GExpr::scoped(GExpr::var("zq_e"), "zq_scoped"), "zq_e", GExpr::List(vec![GExpr::cap(cap)]))));
+            (GExpr::var("zq_l1"), "set_comprehension_with_scoped_element_via_let")
+        }
+        14 => {
+            pre.push(var_("zq_m", GExpr::Int(1)));
+            (GExpr::Set(vec![GExpr::Int(0), GExpr::var("zq_m")]), "mutable_in_set_literal")
+        }
+        15 => {
+            pre.push(var_("zq_m", GExpr::Int(1)));
+            (lcomp(GExpr::var("zq_m"), "zq_e", GExpr::List(vec![GExpr::Int(1)])), "list_comprehension_with_mutable_element")
+        }
+        16 => (
+            GExpr::List(vec![scomp(GExpr::scoped(GExpr::var("zq_e"), "zq_scoped"), "zq_e", GExpr::List(vec![GExpr::cap(cap)]))]),
+            "set_comprehension_with_scoped_element_in_list",
+        ),
         _ => (
             lcomp(GExpr::scoped(GExpr::var("zq_e"), "zq_scoped"), "zq_e", GExpr::List(vec![GExpr::cap(cap)])),
             "comprehension_with_scoped_element",
